@@ -76,6 +76,7 @@ func main() {
 		outp   = flag.String("out", "", "output file (required)")
 		repo   = flag.String("repo", "/repo", "cff source tree used for the cff binary and the scratch modules' replace")
 		only   = flag.String("sections", "BT,AL,ES,GF,DT", "comma-separated subset of sections to run")
+		jobs   = flag.Int("j", 0, "number of concurrent cff processes (0 = number of CPUs)")
 		keepit = flag.Bool("keep", false, "keep the scratch directory (debugging)")
 	)
 	flag.Parse()
@@ -83,6 +84,7 @@ func main() {
 		fmt.Fprintln(os.Stderr, "usage: textrun -seed S -tier quick|thorough -out FILE [-repo DIR] [-sections BT,AL,ES,GF,DT]")
 		os.Exit(2)
 	}
+	maxWorkers = *jobs
 	absRepo, err := filepath.Abs(*repo)
 	if err != nil {
 		fatal(err)
